@@ -107,10 +107,10 @@ func (p IP4) SetPayload(b []byte, protocol byte) IP4 {
 }
 
 func (p IP4) AppendPayload(b []byte, protocol byte) (IP4, error) {
-	if cap(p)-len(p) < len(b) {
+	if cap(p)-HeaderLen < len(b) {
 		return nil, ErrPayloadTooBig
 	}
-	p = p[:len(p)+len(b)] // change slice in case slice is less than required
+	p = p[:HeaderLen+len(b)] // change slice in case slice is less than required
 	totalLen := uint16(HeaderLen + len(b))
 	binary.BigEndian.PutUint16(p[2:4], totalLen)
 	copy(p.Payload(), b)
@@ -194,10 +194,10 @@ func (p UDP) SetPayload(b []byte) UDP {
 }
 
 func (p UDP) AppendPayload(b []byte) (UDP, error) {
-	if cap(p)-len(p) < len(b) {
+	if cap(p)-UDPHeaderLen < len(b) {
 		return nil, ErrPayloadTooBig
 	}
-	p = p[:len(p)+len(b)] // change slice in case slice is less total
+	p = p[:UDPHeaderLen+len(b)] // change slice in case slice is less total
 	copy(p.Payload(), b)
 	binary.BigEndian.PutUint16(p[4:6], UDPHeaderLen+uint16(len(b)))
 	binary.BigEndian.PutUint16(p[6:8], 0) // no checksum
